@@ -99,7 +99,9 @@ def streams(ctx, binary):
 
 
 def f5_reuse(ro):
-    pass
+    # known finding F5 (decided by the depth sweep): the origin re-entered the mock
+    if str(ro.get("got", "")).startswith("cbo-twice"):
+        ro["finding"] = "F5"
 
 
 def run(ctx):
